@@ -25,7 +25,7 @@ type brSt struct {
 	Out       []int   `json:"out"`
 	Net       []int   `json:"net"`
 	Provided  [][]int `json:"provided"`
-	TxsOK     bool    `json:"txsok"` // every provided block delivered its relevant transaction with a valid merkle proof
+	Delivered []int   `json:"delivered"` // relevant transactions handed to the handlers during the refeed (block b holds transaction b; update = -b)
 	WindowLen int     `json:"window"`
 }
 type brLine struct {
@@ -194,7 +194,7 @@ func (b *brH) step(a brAct) (res string) {
 
 func (b *brH) project() brSt {
 	n := b.h.n
-	st := brSt{Out: append([]int{}, b.out...), Net: append([]int{}, b.net...), Provided: [][]int{}, TxsOK: true}
+	st := brSt{Out: append([]int{}, b.out...), Net: append([]int{}, b.net...), Provided: [][]int{}, Delivered: append([]int{}, b.rec.txs...)}
 	if nh := n.blockRefeeder.NextHeight(); nh != 0 {
 		st.Next = nh - b.base
 	}
